@@ -1,6 +1,8 @@
 package main
 
 import (
+	"verif/shim/vclock"
+	"time"
 	"fmt"
 	"net/http"
 	"strings"
@@ -152,6 +154,11 @@ func RunSeq(cfg SeqCfg, segs []Seg) *SeqResult {
 			case s.Action == "deadlines":
 				// time passes until every deadline that is set has fired
 				vsched.AwaitTimers()
+			case strings.HasPrefix(s.Action, "clock+"):
+				// the harness clock (which time.Now of protocol and security follows) moves on
+				if d, err := time.ParseDuration(s.Action[6:]); err == nil {
+					vclock.Advance(d)
+				}
 			case s.Action == "hostdrain":
 				// the host reads everything that is waiting for it
 				if len(w.Backends) > 0 {
